@@ -26,6 +26,8 @@ def deep_sym(x, depth=0):
 
 # ---- formatting -----------------------------------------------------------------------------
 def mod(a, b):
+  if type(a) is bytes and deep_sym(b):
+    return SymBytes(core._render(('%', a, b)))
   if type(a) is str or type(a) is bytes:
     if deep_sym(b): return SymStr(None, ('%', a, b))
     try:
@@ -202,9 +204,9 @@ def join(sep, it):
         out.extend(x)
       return SymBytes(out)
     return sep.join(it)
-  if isinstance(sep, str):
+  if isinstance(sep, (str, SymStr)):
     it = list(it)
-    if any(isinstance(x, SymStr) for x in it): return SymStr(None, ('join', sep, it))
+    if isinstance(sep, SymStr) or any(isinstance(x, SymStr) for x in it): return SymStr(None, ('join', sep, it))
     return sep.join(it)
   return sep.join(it)
 
@@ -215,8 +217,10 @@ def int_(*a, **kw):
     x = a[0]
     if isinstance(x, SymInt): return x
     if isinstance(x, SymBool): return lift(x)
-    if isinstance(x, SymStr): raise Inconclusive("int() of symbolic text")
-    if isinstance(x, SymBytes): raise Inconclusive("int() of symbolic bytes")
+    if isinstance(x, (SymStr, SymBytes)):
+      if isinstance(x, SymBytes) and not x.symbolic(): return int(x.concretize(), *a[1:], **kw)
+      base = a[1] if len(a) > 1 else kw.get('base', 10)
+      return core.parse_int(x, base)
   return int(*a, **kw)
 
 
@@ -238,9 +242,12 @@ def bytes_(*a, **kw):
     x = a[0]
     if isinstance(x, SymBytes): return x
     if isinstance(x, SymInt): return bytes(int(x))
-    if isinstance(x, (list, tuple)) and any(isinstance(y, (SymInt, SymBool)) for y in x):
-      return SymBytes([lift(y) if isinstance(y, SymBool) else y for y in x])
     if isinstance(x, SymByteArray): return SymBytes(x.b)
+    if not isinstance(x, (bytes, bytearray, str, int, memoryview)) and hasattr(x, '__iter__'):
+      x = list(x)        # generators too: a C-level bytes() would concretise every symbolic item
+      if any(isinstance(y, (SymInt, SymBool)) for y in x):
+        return SymBytes([lift(y) if isinstance(y, SymBool) else y for y in x])
+      return bytes(x)
   return bytes(*a, **kw)
 
 
@@ -264,7 +271,10 @@ def bytearray_(*a, **kw):
   if len(a) == 1 and not kw:
     x = a[0]
     if isinstance(x, SymBytes): return SymByteArray(x.b)
-    if isinstance(x, (list, tuple)) and any(isinstance(y, SymInt) for y in x): return SymByteArray(x)
+    if not isinstance(x, (bytes, bytearray, str, int, memoryview)) and hasattr(x, '__iter__'):
+      x = list(x)
+      if any(isinstance(y, (SymInt, SymBool)) for y in x): return SymByteArray(x)
+      return bytearray(x)
   return bytearray(*a, **kw)
 
 
@@ -283,6 +293,10 @@ def chr_(x):
     if x.lo < 0 or x.hi > 255: raise Inconclusive("chr() of wide symbolic int")
     return SymStr(SymBytes([x]))
   return chr(x)
+
+
+def len_(x):
+  return len(x)
 
 
 _TYPEMAP = ((SymInt, 0), (SymBool, True), (SymByteArray, bytearray()), (SymBytes, b''), (SymStr, ''))
